@@ -98,12 +98,17 @@ def copy_spec(dst):
 STATS_RE = re.compile(r"(\d+) states generated, (\d+) distinct states found")
 
 
-def stage1(scratch, module, constants, invariants, simulate=None, seed=0, timeout=1800, workers=NCPU):
+def stage1(scratch, module, constants, invariants, simulate=None, seed=0, timeout=1800, workers=NCPU,
+           spec="GSpec", pre=None, exe=None):
     """Generate behaviours; returns (behaviours file, stats)."""
     d = os.path.join(scratch, "gen")
     copy_spec(d)
+    if pre == "regdump":
+        r = run([exe, "-regdump", os.path.join(d, "registry.json")], timeout=120)
+        if r.returncode != 0:
+            raise Infra("registry dump failed: " + r.stdout[-2000:])
     cfg = os.path.join(d, "gen.cfg")
-    write_cfg(cfg, "GSpec", constants, invariants)
+    write_cfg(cfg, spec, constants, invariants)
     t0 = time.time()
     rc, outp = tlc(d, module, "gen.cfg", 1 if simulate else workers, timeout, simulate=simulate, seed=seed)
     beh = os.path.join(scratch, "beh.json")
